@@ -124,9 +124,8 @@ func (u UserSafe) IsSafe(t string) bool {
 func (u UserSafe) SafeFor() []string { return u.Types }
 
 // NilSafePointer is a typed nil pointer to an application-defined safe value whose methods have value receivers:
-// the pointer type implements SafeValue, and calling any of its methods panics. Coercions must see the nil
-// pointer first. (It is no member of Scalars: handing it to NewSafeValue or to the escape filter calls the
-// methods of the application's type, which is outside every claim.)
+// the pointer type implements SafeValue, and calling any of its methods panics. Whoever looks at the value must
+// see the nil pointer first.
 func NilSafePointer() Named { return N("nil *UserSafe (value receivers)", (*UserSafe)(nil)) }
 
 // Named is a value with a label for reports.
@@ -165,6 +164,7 @@ func Scalars() []Named {
 		N("json.Number int", json.Number("12")), N("json.Number float", json.Number("2.5e1")), N("json.Number junk", json.Number("x")), N("[]byte", []byte("bytes")), N("[]byte utf-8", []byte("h\u00e9llo \u4e2d\u6587 \U0001F600")), N("[]uint8", []uint8{0xe2, 0x82, 0xac, 'x'}), N("[]rune", []rune("h\u00e9")), N("[4]byte", [4]byte{0xf0, 0x9f, 0x98, 0x80}), N("rune", 'x'), N("byte", byte('y')),
 		N("error", errors.New("an error")), N("time.Duration", 90*time.Second), N("time.Month", time.March), N("time.Time", time.Date(2021, 3, 4, 5, 6, 7, 0, time.UTC)), N("time.Time zero", time.Time{}),
 		N("*big.Int", big.NewInt(42)), N("big.Float", *big.NewFloat(1.5)), N("url.URL", url.URL{Scheme: "http", Host: "h"}), N("net.IP", net.IP{127, 0, 0, 1}), N("os.FileMode", os.FileMode(0o644)),
+		NilSafePointer(), N("embeds a nil SafeValue", EmbedsSafe{Tag: "t"}), N("*embeds a nil SafeValue", &EmbedsSafe{}), N("embeds a SafeValue", EmbedsSafe{SafeValue: stick.NewSafeValue("es", "html")}),
 		N("nil *time.Time", (*time.Time)(nil)), N("*time.Time", func() *time.Time { t := time.Date(2020, 2, 29, 23, 59, 59, 0, time.UTC); return &t }()), N("nil *big.Int", (*big.Int)(nil)), N("nil *big.Float", (*big.Float)(nil)), N("nil *url.URL", (*url.URL)(nil)),
 		N("nil *decimal.Decimal", (*decimal.Decimal)(nil)), N("*decimal.Decimal", func() *decimal.Decimal { d := decimal.NewFromFloat(2.5); return &d }()), N("nil *json.Number", (*json.Number)(nil)), N("nil *time.Duration", (*time.Duration)(nil)), N("nil *net.IP", (*net.IP)(nil)), N("nil *[]byte", (*[]byte)(nil)), N("nil *error", (*error)(nil)),
 		N("typed nil in iface slice", []interface{}{(*int)(nil)}), N("[2]string", [2]string{"a", "b"}), N("struct{}", struct{}{}), N("*struct{}", &struct{}{}), N("**int", func() **int { i := 3; p := &i; return &p }()),
@@ -452,3 +452,9 @@ func (OpinionatedSafe) SafeFor() []string    { return []string{"html"} }
 func (OpinionatedSafe) String() string       { return "the wrapper's own text" }
 func (OpinionatedSafe) Number() float64      { return 987654 }
 func (o OpinionatedSafe) Boolean() bool      { return !stick.CoerceBool(o.Inner) }
+
+// EmbedsSafe gets the methods of a safe value from an embedded interface, which may be nil.
+type EmbedsSafe struct {
+	stick.SafeValue
+	Tag string
+}
